@@ -8,12 +8,20 @@ use tauri_typegen::analysis::event_parser::EventParser;
 use tauri_typegen::analysis::type_resolver::TypeResolver;
 use tauri_typegen::generators::base::template_context::EventContext;
 use tauri_typegen::generators::ts::type_visitor::TypeScriptVisitor;
+use tauri_typegen::generators::zod::type_visitor::ZodVisitor;
 use tauri_typegen::GenerateConfig;
 
 pub fn events(case: &Value) -> Value {
     let mut out = Vec::new();
-    let config = GenerateConfig::default();
+    // case["mappings"]: {rust name: ts target} = config.type_mappings
+    let mut config = GenerateConfig::default();
+    if let Some(m) = case.get("mappings").and_then(|m| m.as_object()) {
+        if !m.is_empty() {
+            config.type_mappings = Some(m.iter().map(|(k, v)| (k.clone(), v.as_str().unwrap_or("").to_string())).collect());
+        }
+    }
     let visitor = TypeScriptVisitor::with_config(&config);
+    let zvisitor = ZodVisitor::with_config(&config);
     for f in case["files"].as_array().unwrap() {
         let name = f["name"].as_str().unwrap();
         let src = f["src"].as_str().unwrap();
@@ -33,8 +41,11 @@ pub fn events(case: &Value) -> Value {
                     .map(|e| {
                         let mut r2 = TypeResolver::new();
                         let ctx = EventContext::new(&config).from_event_info(e, &visitor, &|t: &str| r2.parse_type_structure(t));
+                        let mut r3 = TypeResolver::new();
+                        let zctx = EventContext::new(&config).from_event_info(e, &zvisitor, &|t: &str| r3.parse_type_structure(t));
                         json!({"name": e.event_name, "payload": e.payload_type, "line": e.line_number,
-                               "fn": ctx.ts_function_name, "ts": ctx.typescript_payload_type})
+                               "fn": ctx.ts_function_name, "ts": ctx.typescript_payload_type,
+                               "ts_zod": zctx.typescript_payload_type})
                     })
                     .collect();
                 out.push(json!({"name": name, "events": list}));
